@@ -144,3 +144,4 @@ package filters
 //@     split j == 1
 //@     split j == 2
 //@     invariant 0 <= j && j <= numBytes && numBytes <= 4 && len(result) == entry(len(result)) + j && (forall k int :: {result[k]} 0 <= k && k < entry(len(result)) ==> result[k] == entry(result)[k]) && (forall k int :: {result[k]} entry(len(result)) <= k && k < len(result) ==> result[k] == be32byte(value, k - entry(len(result))))
+//@     decreases numBytes - j
